@@ -51,9 +51,10 @@ def key_of(f) -> str:
     return f.get('witness', {}).get('key') or f['what']
 
 
-# (claim/use/release cycles per client, out-events, preemption bound, client threads)
-CONFIGS = {'quick': dict(configs=[(1, 1, 2, 2)], n_validate=3, tsan_runs=2, sample_every=97),
-           'thorough': dict(configs=[(1, 1, 3, 2), (2, 1, 2, 2), (1, 2, 2, 2)], sparse_configs=[(1, 1, 2, 3)], sparse_every=6,
+# (claim/use/release cycles per client, out-events raised, preemption bound, client threads, which other in-event /
+#  out-event of the interface is exercised)
+CONFIGS = {'quick': dict(configs=[(1, 1, 2, 2, 0), (1, 1, 1, 2, 1)], n_validate=3, tsan_runs=2, sample_every=97),
+           'thorough': dict(configs=[(1, 1, 3, 2, 0), (2, 1, 2, 2, 1), (1, 2, 2, 2, 0), (1, 1, 2, 2, 1)], sparse_configs=[(1, 1, 2, 3, 0)], sparse_every=6,
                             n_validate=4, tsan_runs=6,
                             sample_every=211)}
 
